@@ -91,6 +91,25 @@ impl IndexableLeaf for Leaf {
     }
 }
 
+/// a second leaf type whose XDR encoding is exactly 64 bytes (the length of two concatenated hashes):
+/// used for the distributions whose harness leaves carry `tag >= 64`
+#[contracttype]
+#[derive(Clone)]
+pub struct Leaf64 {
+    pub index: u32,
+    pub amount: u64,
+}
+
+impl IndexableLeaf for Leaf64 {
+    fn index(&self) -> u32 {
+        self.index
+    }
+}
+
+fn narrow(l: &Leaf) -> Leaf64 {
+    Leaf64 { index: l.index, amount: ((l.amount as u64) << 1) | (l.tag as u64 & 1) }
+}
+
 #[contract]
 pub struct DistSha;
 
@@ -109,6 +128,12 @@ impl DistSha {
         MerkleDistributor::<Sha256>::verify_and_set_claimed(e, leaf, proof)
     }
     pub fn claim_idx(e: &Env, leaf: Leaf, proof: soroban_sdk::Vec<BytesN<32>>) {
+        MerkleDistributor::<Sha256>::verify_with_index_and_set_claimed(e, leaf, proof)
+    }
+    pub fn claim64(e: &Env, leaf: Leaf64, proof: soroban_sdk::Vec<BytesN<32>>) {
+        MerkleDistributor::<Sha256>::verify_and_set_claimed(e, leaf, proof)
+    }
+    pub fn claim64_idx(e: &Env, leaf: Leaf64, proof: soroban_sdk::Vec<BytesN<32>>) {
         MerkleDistributor::<Sha256>::verify_with_index_and_set_claimed(e, leaf, proof)
     }
 }
@@ -131,6 +156,12 @@ impl DistKec {
         MerkleDistributor::<Keccak256>::verify_and_set_claimed(e, leaf, proof)
     }
     pub fn claim_idx(e: &Env, leaf: Leaf, proof: soroban_sdk::Vec<BytesN<32>>) {
+        MerkleDistributor::<Keccak256>::verify_with_index_and_set_claimed(e, leaf, proof)
+    }
+    pub fn claim64(e: &Env, leaf: Leaf64, proof: soroban_sdk::Vec<BytesN<32>>) {
+        MerkleDistributor::<Keccak256>::verify_and_set_claimed(e, leaf, proof)
+    }
+    pub fn claim64_idx(e: &Env, leaf: Leaf64, proof: soroban_sdk::Vec<BytesN<32>>) {
         MerkleDistributor::<Keccak256>::verify_with_index_and_set_claimed(e, leaf, proof)
     }
 }
@@ -675,7 +706,7 @@ fn hash_cases(t: &mut Trace, rng: &mut Rng, thorough: bool) {
 // ------------------------------------------------------------------ distributor histories
 
 fn leaf_hash(e: &Env, alg: Alg, leaf: &Leaf) -> H32 {
-    let b = leaf.clone().to_xdr(e);
+    let b = if leaf.tag >= 64 { narrow(leaf).to_xdr(e) } else { leaf.clone().to_xdr(e) };
     let mut raw = vec![0u8; b.len() as usize];
     b.copy_into_slice(&mut raw);
     hash(alg, &raw)
@@ -737,7 +768,11 @@ impl DistSim {
         for h in proof {
             pv.push_back(BytesN::from_array(e, h));
         }
-        let r = call(e, &self.addr, if indexed { "claim_idx" } else { "claim" }, args(e, [v(e, leaf.clone()), v(e, pv)]), &[]);
+        let r = if leaf.tag >= 64 {
+            call(e, &self.addr, if indexed { "claim64_idx" } else { "claim64" }, args(e, [v(e, narrow(leaf)), v(e, pv)]), &[])
+        } else {
+            call(e, &self.addr, if indexed { "claim_idx" } else { "claim" }, args(e, [v(e, leaf.clone()), v(e, pv)]), &[])
+        };
         t.count(&format!("claim:{}:{}", exp.split(':').next().unwrap_or(""), if r.is_some() { "ok" } else { "err" }));
         t.obs(&self.obs(r.is_some()));
     }
@@ -783,8 +818,10 @@ fn dist_history(t: &mut Trace, rng: &mut Rng, alg: Alg, indexed: bool, n: usize,
     let w = n as u32 + 3;
     let sim = DistSim { e, addr, alg, w, now: std::cell::Cell::new(START) };
     t.seq(&format!("dist alg={} w={} start={}", alg.name(), w, START));
-    let a = make_drop(&sim.e, alg, indexed, n, 1, rng);
-    let b = make_drop(&sim.e, alg, indexed, n, 2, rng);
+    // every other history distributes leaves whose encoding is exactly 64 bytes
+    let base_tag = if rng.chance(50) { 64 } else { 1 };
+    let a = make_drop(&sim.e, alg, indexed, n, base_tag, rng);
+    let b = make_drop(&sim.e, alg, indexed, n, base_tag + 1, rng);
     // a claim before any root is set
     sim.claim(t, indexed, &a.leaves[0], &a.items[0].proof, "noroot");
     sim.set_root(t, &a.root);
